@@ -131,8 +131,8 @@ def _sub(draw, n, depth, measure, visible, symbolic):
     vis_in = [inv.get(v, v) for v in visible if v not in kmap or v in inv]
     body = draw(_body(n, depth, measure, vis_in, symbolic))
     has_m = _has_measure(body)
-    # repetitions 0 / negative only for measurement-free bodies (see KNOWN finding C12-zero-reps-keys; inverse needs unitary)
-    reps = draw(st.sampled_from([1, 1, 2, 2, 3] + ([] if has_m else [0, -1, -2])))
+    # negative repetitions only for measurement-free bodies (the inverse needs a unitary body)
+    reps = draw(st.sampled_from([1, 1, 2, 2, 3, 0] + ([] if has_m else [-1, -2])))
     ids = None
     if abs(reps) >= 1 and draw(st.integers(0, 2)) == 0:
         ids = draw(st.sampled_from(["default", "custom"]))
@@ -672,10 +672,13 @@ def oracle_until(r):
     return {"nontrivial": len(want) >= 3, "kmap": r["kmap"], "cond": r["cond"]}
 
 
+# The whole sub-check is one known finding (see known_findings.json, C06-F17): excluded from generation while listed.
+KNOWN_FEATURES = {"C12_unroll_greedy_earliest_reorders": lambda sub, recipe: sub == "unroll_greedy_earliest"}
+
 SUBCHECKS = [
     SubCheck("unitary", _case(measure=False), oracle_unitary, quick=500, thorough=20000, shards_quick=6,
              frozen_keys=("names", "perm", "n")),
-    SubCheck("unroll_greedy_earliest", _case(measure=False), oracle_unroll_greedy_earliest, quick=300, thorough=10000, shards_quick=2,
+    SubCheck("unroll_greedy_earliest", _case(measure=False), oracle_unroll_greedy_earliest, quick=60, thorough=2000, shards_quick=1, shards_thorough=2,
              frozen_keys=("names", "perm", "n")),
     SubCheck("keys_distribution", _case(measure=True, symbolic=False, max_depth=2), oracle_keys, quick=500, thorough=20000, shards_quick=6,
              frozen_keys=("names", "perm", "n")),
